@@ -255,6 +255,7 @@ theorem C08_closed_absorbing_step (s : AState) (op : Op) (c : ClosedQuiet s) (ho
   | restart feeOk f =>
     simp only [step, ha]
     exact closedQuiet_same (resume_closed _ a _ _ _ _ hst) (closedQuiet_of _ a rfl hst hq)
+  | flush => exact closedQuiet_of _ a ha hst hq
 
 /-- **C08 / closed is absorbing**, all histories -/
 theorem C08_closed_absorbing (s : AState) (ops : List Op) (c : ClosedQuiet s)
@@ -389,6 +390,11 @@ example : EnvHist (AState.init 1) [.init 100000 1200 0 1000 (some (7, 0)), .rest
 example :
     let s := (step (run (AState.init 1) [.init 100000 1200 0 1000 (some (7, 0)), .conf 0 1003]) (.restart true none)).1
     s.w.spendRegs.map (·.op) = [⟨7, 0⟩] ∧ s.w.expiry = some 1200 := by decide
+
+/-- every site that can change the expiry an open account is tracked under has to re-register it: `RenewAccount`
+does (regenerated call list); `handleStateOpen` does after every confirmation (see `C08_I2_resume_adequate`) -/
+theorem C08_renew_rearms_expiry : Lifecycle.renewAccountCalls.contains "WatchAccountExpiration" = true := by
+  decide
 
 /-! ## I3 — the store write precedes the publication -/
 
